@@ -526,6 +526,7 @@ class LabelRows(Filter[Iterable[Union[Dense,Sparse]],Iterable[Union[Dense,Sparse
 
         if isinstance(first,Dense):
             ind = first.headers[label] if isinstance(label,str) else label
+            if ind < 0: ind += len(first)
             return map(LabelDense, rows, repeat(ind), repeat(tipe))
         else:
             #sparse rows with headers are keyed by header so an index label is translated to its header
